@@ -962,11 +962,14 @@ func otherSpelling(rng *rand.Rand, s string) string {
 	return "0x" + strings.ToUpper(s[2:])
 }
 
+// gravity ids each chain had earlier in this process (a signature made under an id the chain no longer has must fail)
+var gidHistory = map[string][]string{}
+
 var confirmClasses = []string{"valid", "valid", "valid", "valid", "valid", "v27", "malleated", "malleated27", "vbad", "truncated", "overlong", "zero", "other-object", "other-gid",
 	"other-prefix", "other-key", "other-chain-checkpoint", "wrong-bridger", "unknown-ext", "missing-object", "nothex", "empty", "swapped-identity", "random65", "no-prefix",
 	// right in all but one coordinate
 	"wrong-token", "wrong-token", "wrong-token-spelling", "wrong-nonce", "wrong-nonce", "wrong-chain", "wrong-chain", "ext-of-other-oracle", "bridger-of-other-oracle",
-	"neighbour-sig", "neighbour-sig", "pruned-object", "pruned-object", "other-kind-same-nonce", "ext-spelling"}
+	"neighbour-sig", "neighbour-sig", "pruned-object", "pruned-object", "other-kind-same-nonce", "ext-spelling", "earlier-gid"}
 
 func (h *hCtx) randomConfirm(c *chainT, others []*chainT) {
 	rng := h.rng
@@ -1037,6 +1040,25 @@ func (h *hCtx) randomConfirm(c *chainT, others []*chainT) {
 		sig = c.sign(digest, or.key)
 	case "other-gid":
 		g := genGid(rng)
+		if g == c.gid {
+			return
+		}
+		d, err := o.cp(g)
+		if err != nil {
+			return
+		}
+		digest = d
+		sig = c.sign(digest, or.key)
+	case "earlier-gid":
+		// the oracle's signature over this very object under a gravity id this chain had before its parameter changed
+		hist := gidHistory[c.name]
+		if len(hist) < 2 {
+			return
+		}
+		g := hist[0]
+		if rng.Intn(2) == 0 {
+			g = hist[len(hist)-2]
+		}
 		if g == c.gid {
 			return
 		}
@@ -1354,6 +1376,10 @@ func (h *hCtx) setupChain(name string, k crosschainkeeper.Keeper, nOracles int, 
 	// the gravity id is taken from the parameters that were set, NOT read back through the keeper: the monitors must not
 	// inherit a stale or otherwise wrong id from the code under test
 	c.gid = params.GravityId
+	if got := k.GetGravityID(h.ctx); got != c.gid {
+		h.out.Violate(fmt.Sprintf("the gravity id the %s handlers compute checkpoints under is not the chain's gravity-id parameter (after the parameter was changed)", map[bool]string{true: "tron", false: "eth-style"}[c.tron]))
+	}
+	gidHistory[name] = append(gidHistory[name], c.gid)
 	h.out.Emit(fmt.Sprintf("chain %s %s %s", name, map[bool]string{true: "tron", false: "eth"}[c.tron], gidHex(c.gid)), "ok")
 	po := &types.ProposalOracle{}
 	for i := 0; i < nOracles; i++ {
@@ -1631,6 +1657,10 @@ func TestC12(t *testing.T) {
 			p.GravityId = chains[0].gid
 			_ = chains[1].k.SetParams(h.ctx, &p)
 			chains[1].gid = chains[0].gid
+			gidHistory["bsc"] = append(gidHistory["bsc"], chains[1].gid)
+			if got := chains[1].k.GetGravityID(h.ctx); got != chains[1].gid {
+				out.Violate("the gravity id the eth-style handlers compute checkpoints under is not the chain's gravity-id parameter (after the parameter was changed)")
+			}
 			out.Emit(fmt.Sprintf("chain bsc eth %s", gidHex(chains[1].gid)), "ok")
 			out.Count("same-gravity-id")
 			// the model re-creates the chain: replay its registry
